@@ -3,7 +3,7 @@
 From Coq Require Import List NArith ZArith Bool String Ascii Lia.
 From T4V Require Import Base.Str C11.Model C11.Spec C11.Proofs C11.LexProofs C11.LexSound C11.Layout C11.Pipeline C11.Sound C11.Complete C11.Loop C11.Card C11.Handover C11.EndToEnd C11.Regex.
 From T4V Require C11.Exec C11.RegexProofs C11.RegexBound6 C15.Model.
-From T4V Require Import C11.LinkC15 C11.NormalForm.
+From T4V Require Import C11.LinkC15 C11.NormalForm C11.PegProofs.
 Import ListNotations.
 Close Scope string_scope.
 Open Scope list_scope.
@@ -331,14 +331,37 @@ Theorem C11_normalize2_normal_form : forall (ws : written) (trail : nat),
 Proof. exact normalize2_normal_form. Qed.
 Print Assumptions C11_normalize2_normal_form.
 
-(* hence, for the code-shaped model, what get_ast2 returns on a writing only
-   depends on its normal form (layout invariance proved for get_ast2 itself).
-   PARTIAL towards "get_ast2 = get_ast for all strings": still missing are
-   (i) peg_start (normal_form ws) = parse_tokens (tokens_written ws) for
-   arbitrary length (the character-level PEG against the token automaton), and
-   (ii) strings outside the layout family (both models reject them; proved for
-   get_ast by C11_get_ast_sound, not for get_ast2).  Both are covered by the
-   bounded theorems (length <= 6) and the thorough tier's computation. *)
+(* the character-level PEG (as given in Regex.v) on the normal form of any writing
+   of any expression returns [psem e]: the PEG against the token automaton, for
+   texts of any length *)
+Theorem C11_peg_normal_form : forall (e : mexpr) (ws : written),
+  wf_written ws = true -> tokens_written ws = toks 0 e -> peg_start (normal_form ws) = psem e.
+Proof. exact peg_normal_form. Qed.
+Print Assumptions C11_peg_normal_form.
+
+(* UNBOUNDED equality of the two models on the whole layout family: every
+   writing of every expression, accepted or rejected, of any length *)
+Theorem C11_get_ast2_eq_written : forall (e : mexpr) (ws : written) (trail : nat),
+  wf_written ws = true -> tokens_written ws = toks 0 e ->
+  get_ast2 (render ws trail) = get_ast (render ws trail).
+Proof. exact get_ast2_eq_written. Qed.
+Print Assumptions C11_get_ast2_eq_written.
+
+(* ... hence for EVERY string: whatever the lexer + automaton model accepts, the
+   code-shaped model accepts with the same tree (C11_get_ast_sound puts every
+   accepted string in the layout family) *)
+Theorem C11_get_ast2_eq_accepted : forall (s : String.string) (a : ast),
+  get_ast s = Ok a -> get_ast2 s = Ok a.
+Proof. exact get_ast2_eq_accepted. Qed.
+Print Assumptions C11_get_ast2_eq_accepted.
+
+(* PARTIAL towards "get_ast2 s = get_ast s for all strings s": what is still
+   missing is the rejected side outside the layout family, i.e. that get_ast2
+   accepts nothing that is not a writing of an expression (soundness of the
+   character-level PEG + rewriting steps on arbitrary strings) and raises the same
+   exception there.  Covered by the bounded theorems (length <= 6) and the thorough
+   tier's computation.  Proved: on a writing, get_ast2 only depends on the normal
+   form (layout invariance of the code-shaped model itself). *)
 Theorem C11_get_ast2_layout_partial : forall (ws ws' : written) (trail trail' : nat),
   wf_written ws = true -> wf_written ws' = true -> ws <> [] ->
   map (fun p => watom (snd p)) ws = map (fun p => watom (snd p)) ws' ->
